@@ -42,6 +42,22 @@ Proof.
   - unfold h2b_clause_op_gen in E. cbn [bool_of] in E. destruct (h2b x) as [bx|], (h2b y) as [by_|]; try discriminate. inversion E; subst b. cbn [embf emb].
     now rewrite (IHx bx eq_refl), (IHy by_ eq_refl).
 Qed.
+Lemma h2b_tel_only : forall p b, h2b p = Some b -> tel_only A b = true.
+Proof.
+  induction p as [a|c|x IH|n w x IH|u l IHl r IHr|u r IHr|x IHx y IHy|x IHx y IHy]; intros b E; cbn [HeadDefs.h2b] in E.
+  - now inversion E.
+  - now inversion E.
+  - destruct (HeadDefs.h2b A x) as [bx|]; [|discriminate]. inversion E; subst b. cbn [tel_only]. now apply IH.
+  - destruct (HeadDefs.h2b A x) as [bx|]; [|discriminate]. inversion E; subst b. cbn [tel_only]. now apply IH.
+  - unfold h2b_until_op_gen, h2b_until_future_weak_gen in E. destruct (HeadDefs.h2b A l) as [bl|], (HeadDefs.h2b A r) as [br|]; destruct u; cbn in E; try discriminate;
+      inversion E; subst b; cbn [tel_only]; now rewrite (IHl bl eq_refl), (IHr br eq_refl).
+  - unfold h2b_until_op_gen, h2b_until_future_weak_gen in E. destruct (HeadDefs.h2b A r) as [br|]; destruct u; cbn in E; try discriminate;
+      inversion E; subst b; cbn [tel_only]; now apply IHr.
+  - unfold h2b_clause_op_gen in E. cbn [bool_of] in E. destruct (HeadDefs.h2b A x) as [bx|], (HeadDefs.h2b A y) as [by_|]; try discriminate. inversion E; subst b. cbn [tel_only].
+    now rewrite (IHx bx eq_refl), (IHy by_ eq_refl).
+  - unfold h2b_clause_op_gen in E. cbn [bool_of] in E. destruct (HeadDefs.h2b A x) as [bx|], (HeadDefs.h2b A y) as [by_|]; try discriminate. inversion E; subst b. cbn [tel_only].
+    now rewrite (IHx bx eq_refl), (IHy by_ eq_refl).
+Qed.
 Lemma h2b_total : forall p, exists b, h2b p = Some b.
 Proof.
   induction p as [a|c|x [bx IH]|n w x [bx IH]|u l [bl IHl] r [br IHr]|u r [br IHr]|x [bx IHx] y [by_ IHy]|x [bx IHx] y [by_ IHy]]; cbn [h2b].
@@ -56,7 +72,7 @@ Proof.
 Qed.
 (* HeadFormulaToBodyFormula keeps the (classical, LTLf) value *)
 Theorem h2b_value (T : HeadShift.trace A) p b : h2b p = Some b -> forall k, BodyTheoryFull.lsat A h T b k = csat A h T p k.
-Proof. intros E k. now rewrite (lsat_embf A h T b k), (embf_h2b p b E), (emb_csat A h T p k). Qed.
+Proof. intros E k. now rewrite (lsat_embf A h T b (h2b_tel_only p b E) k), (embf_h2b p b E), (emb_csat A h T p k). Qed.
 (* the body formula of a shifted part is false exactly if the part holds (it is the negation that enters the rule body) *)
 Theorem body_formula_value (H T : HeadShift.trace A) g b : body_formula g = Some b -> forall k, BodyTheoryFull.lsat A h T b k = negb (ssat A h H T g k).
 Proof.
